@@ -1,6 +1,7 @@
     // ------------------------------------------------------------------ little endian integers (encode_integral! expansion)
     impl Encoding<u8> for Default {
         open spec fn enc_ok(v: &u8) -> bool { true }
+        open spec fn canon(v: &u8) -> bool { true }
         /// 1 byte(s), little endian
         open spec fn spec_enc(v: &u8) -> Seq<u8> { le_seq1(*v as nat) }
         open spec fn spec_dec(b: Seq<u8>) -> Option<(u8, int)> { if b.len() < 1 { None } else { Some((le_val1(b.subrange(0, 1)) as u8, 1)) } }
@@ -18,6 +19,7 @@
     }
     impl Encoding<u16> for Default {
         open spec fn enc_ok(v: &u16) -> bool { true }
+        open spec fn canon(v: &u16) -> bool { true }
         /// 2 byte(s), little endian
         open spec fn spec_enc(v: &u16) -> Seq<u8> { le_seq2(*v as nat) }
         open spec fn spec_dec(b: Seq<u8>) -> Option<(u16, int)> { if b.len() < 2 { None } else { Some((le_val2(b.subrange(0, 2)) as u16, 2)) } }
@@ -35,6 +37,7 @@
     }
     impl Encoding<u32> for Default {
         open spec fn enc_ok(v: &u32) -> bool { true }
+        open spec fn canon(v: &u32) -> bool { true }
         /// 4 byte(s), little endian
         open spec fn spec_enc(v: &u32) -> Seq<u8> { le_seq4(*v as nat) }
         open spec fn spec_dec(b: Seq<u8>) -> Option<(u32, int)> { if b.len() < 4 { None } else { Some((le_val4(b.subrange(0, 4)) as u32, 4)) } }
@@ -52,6 +55,7 @@
     }
     impl Encoding<u64> for Default {
         open spec fn enc_ok(v: &u64) -> bool { true }
+        open spec fn canon(v: &u64) -> bool { true }
         /// 8 byte(s), little endian
         open spec fn spec_enc(v: &u64) -> Seq<u8> { le_seq8(*v as nat) }
         open spec fn spec_dec(b: Seq<u8>) -> Option<(u64, int)> { if b.len() < 8 { None } else { Some((le_val8(b.subrange(0, 8)) as u64, 8)) } }
@@ -69,6 +73,7 @@
     }
     impl Encoding<usize> for Default {
         open spec fn enc_ok(v: &usize) -> bool { true }
+        open spec fn canon(v: &usize) -> bool { true }
         /// 8 byte(s), little endian
         open spec fn spec_enc(v: &usize) -> Seq<u8> { le_seq8(*v as nat) }
         open spec fn spec_dec(b: Seq<u8>) -> Option<(usize, int)> { if b.len() < 8 { None } else { Some((le_val8(b.subrange(0, 8)) as usize, 8)) } }
@@ -87,6 +92,7 @@
     // ------------------------------------------------------------------ big endian integers (encode_integral! expansion)
     impl Encoding<u8> for BigEndian {
         open spec fn enc_ok(v: &u8) -> bool { true }
+        open spec fn canon(v: &u8) -> bool { true }
         /// 1 byte(s), big endian
         open spec fn spec_enc(v: &u8) -> Seq<u8> { be_seq1(*v as nat) }
         open spec fn spec_dec(b: Seq<u8>) -> Option<(u8, int)> { if b.len() < 1 { None } else { Some((be_val1(b.subrange(0, 1)) as u8, 1)) } }
@@ -104,6 +110,7 @@
     }
     impl Encoding<u16> for BigEndian {
         open spec fn enc_ok(v: &u16) -> bool { true }
+        open spec fn canon(v: &u16) -> bool { true }
         /// 2 byte(s), big endian
         open spec fn spec_enc(v: &u16) -> Seq<u8> { be_seq2(*v as nat) }
         open spec fn spec_dec(b: Seq<u8>) -> Option<(u16, int)> { if b.len() < 2 { None } else { Some((be_val2(b.subrange(0, 2)) as u16, 2)) } }
@@ -121,6 +128,7 @@
     }
     impl Encoding<u32> for BigEndian {
         open spec fn enc_ok(v: &u32) -> bool { true }
+        open spec fn canon(v: &u32) -> bool { true }
         /// 4 byte(s), big endian
         open spec fn spec_enc(v: &u32) -> Seq<u8> { be_seq4(*v as nat) }
         open spec fn spec_dec(b: Seq<u8>) -> Option<(u32, int)> { if b.len() < 4 { None } else { Some((be_val4(b.subrange(0, 4)) as u32, 4)) } }
@@ -138,6 +146,7 @@
     }
     impl Encoding<u64> for BigEndian {
         open spec fn enc_ok(v: &u64) -> bool { true }
+        open spec fn canon(v: &u64) -> bool { true }
         /// 8 byte(s), big endian
         open spec fn spec_enc(v: &u64) -> Seq<u8> { be_seq8(*v as nat) }
         open spec fn spec_dec(b: Seq<u8>) -> Option<(u64, int)> { if b.len() < 8 { None } else { Some((be_val8(b.subrange(0, 8)) as u64, 8)) } }
@@ -155,6 +164,7 @@
     }
     impl Encoding<usize> for BigEndian {
         open spec fn enc_ok(v: &usize) -> bool { true }
+        open spec fn canon(v: &usize) -> bool { true }
         /// 8 byte(s), big endian
         open spec fn spec_enc(v: &usize) -> Seq<u8> { be_seq8(*v as nat) }
         open spec fn spec_dec(b: Seq<u8>) -> Option<(usize, int)> { if b.len() < 8 { None } else { Some((be_val8(b.subrange(0, 8)) as usize, 8)) } }
